@@ -465,6 +465,9 @@ def badarg_targets():
         # polygon given with mixed float / int vertices keeps both kinds of Point2D)
         ("float-circle-rational-hole", ("C", (S(_circle(3.0, 0.0, 0.0, 4)), S(_sq(1, rev=True))))),
         ("mixed-polygon", S(gen.poly_chain([(0.5, 1.25), (F(3), F(0)), (F(2), F(2))]))),
+        # ... and rational points before float ones
+        ("rational-square-float-hole", ("C", (S(_sq(8)), S(gen.reverse_chain(_circle(1.0, 0.0, 0.0, 4)))))),
+        ("mixed-polygon-rational-first", S(gen.poly_chain([(F(0), F(0)), (F(3), F(0)), (2.5, 2.25), (0.5, 1.75)]))),
     ]
 
 
